@@ -90,15 +90,20 @@ def run(tier, replay=None):
     gens = vlib.tlc_printed_json(g, "GEN")
     if len(gens) < 500:
         raise MachineryError(f"AssetMirror printed {len(gens)} scenarios")
-    # the machine "as written" (fetcher.go): TLC must find the design counterexamples
+    # the machine as fetcher.go is now (Variant=code, a refinement of the specified tool): every invariant holds; the machine as
+    # fetcher.go was first written (Variant=orig, before a355798 / 2447055 / fd3796b): TLC must still find the design
+    # counterexamples (kept as history)
     if tier == "quick":
-        codejobs = [("AssetMirror", "AssetMirror_code_partial.cfg", dict(expect="violation", expect_violated=("InvNoPartial",), coverage=False, workers=2))]
+        origs = (("partial", "InvNoPartial"),)
     else:
-        codejobs = [("AssetMirror", f"AssetMirror_code_{n}.cfg", dict(expect="violation", expect_violated=(inv,), coverage=False, workers=2))
-                    for n, inv in (("partial", "InvNoPartial"), ("ident", "InvIdent"), ("complete", "InvComplete"), ("reported", "InvReported"))]
-    for r in c.models(codejobs, parallel=4):
+        origs = (("partial", "InvNoPartial"), ("ident", "InvIdent"), ("complete", "InvComplete"), ("reported", "InvReported"))
+    jobs = [("AssetMirror", f"AssetMirror_code_{tier}.cfg", dict(coverage=False, workers=2))]
+    jobs += [("AssetMirror", f"AssetMirror_orig_{n}.cfg", dict(expect="violation", expect_violated=(inv,), coverage=False, workers=2))
+             for n, inv in origs]
+    res = c.models(jobs, parallel=4)
+    for r in res[1:]:
         if r.status != "invariant":
-            raise MachineryError(f"AssetMirror (Variant=code) did not produce the expected counterexample: {r.status}")
+            raise MachineryError(f"AssetMirror (Variant=orig) did not produce the expected counterexample: {r.status}")
     genf = c.work / "gen.jsonl"
     genf.write_text("".join(json.dumps(x) + "\n" for x in gens))
     # (V) real code
